@@ -12,6 +12,55 @@ mod printer;
 mod render;
 mod typecheck;
 
+/// Verification hooks (feature `verif` only): entry points that give the terminal configuration
+/// instead of probing `terminal_size()`, so the printer and the tty branch of the renderer can be
+/// driven in-process.
+#[cfg(feature = "verif")]
+pub mod verif {
+    pub use crate::printer::verif::{format_with_ellipsis, Pretty};
+    pub use crate::render::{Renderer, VerifRefresh};
+    use crate::data::DisplayConfig;
+    use crate::pipeline::OutputMode;
+    use crate::printer::{agg_printer, raw_printer};
+    use crate::render::{RenderConfig, TerminalConfig, TerminalSize};
+    use std::io::Write;
+    use std::time::Duration;
+
+    pub(crate) fn terminal(size: Option<(u16, u16)>, is_tty: bool) -> TerminalConfig {
+        TerminalConfig {
+            size: size.map(|(width, height)| TerminalSize { width, height }),
+            is_tty,
+            color_enabled: is_tty,
+        }
+    }
+
+    /// The `Renderer` that `Pipeline::new` builds, for a given terminal: `size` is
+    /// `(width, height)`, `refresh` (if any) decides `should_print` after the first frame.
+    pub fn renderer<W: 'static + Write + Send>(
+        output: W,
+        output_mode: &OutputMode,
+        size: Option<(u16, u16)>,
+        is_tty: bool,
+        refresh: Option<VerifRefresh>,
+    ) -> Result<Renderer, anyhow::Error> {
+        let render_config = RenderConfig {
+            display_config: DisplayConfig { floating_points: 2 },
+            min_buffer: 4,
+            max_buffer: 8,
+        };
+        let raw = raw_printer(output_mode, render_config.clone(), terminal(size, is_tty))?;
+        let agg = agg_printer(output_mode, render_config.clone(), terminal(size, is_tty))?;
+        Ok(Renderer::new(
+            render_config,
+            Duration::from_millis(50),
+            raw,
+            agg,
+            Box::new(output),
+        )
+        .verif_force(is_tty, refresh))
+    }
+}
+
 pub mod pipeline {
     use crate::data::{DisplayConfig, Record, Row};
     pub use crate::errors::{ErrorReporter, QueryContainer, TermErrorReporter};
@@ -212,6 +261,22 @@ pub mod pipeline {
                     Box::new(output),
                 ),
             })
+        }
+
+        /// Verification hook: `new`, then the renderer is replaced by one for the given
+        /// terminal (see `verif::renderer`) writing to `output`.
+        #[cfg(feature = "verif")]
+        pub fn verif_new_with_terminal<W: 'static + Write + Send>(
+            pipeline: &QueryContainer,
+            output: W,
+            output_mode: OutputMode,
+            size: Option<(u16, u16)>,
+            is_tty: bool,
+            refresh: Option<crate::verif::VerifRefresh>,
+        ) -> Result<Self, Error> {
+            let mut built = Pipeline::new(pipeline, std::io::sink(), output_mode.clone())?;
+            built.renderer = crate::verif::renderer(output, &output_mode, size, is_tty, refresh)?;
+            Ok(built)
         }
 
         fn render_noagg(mut renderer: Renderer, rx: &Receiver<Row>) {
